@@ -107,3 +107,41 @@ pub(crate) fn on_argument_vector<F: PrimeField>(kind: &'static str, values: &[F]
         ARG_LOG.with(|l| l.borrow_mut().push(ArgumentVector { kind, values }));
     }
 }
+
+/// One call of `verifier::verify_algebraic_constraints`: the challenge `x` and the evaluations
+/// of the instance columns as the verifier holds them after the block `instance_evals` (per
+/// proof, one value per entry of `cs.instance_queries`: read from the transcript for committed
+/// columns, computed from the public inputs with `l_i_range` + `compute_inner_product` for
+/// plain columns). Field elements are stored as the bytes of `PrimeField::to_repr`.
+#[derive(Clone, Debug, Default, PartialEq, Eq)]
+pub struct InstanceEvals {
+    /// The challenge `x`.
+    pub x: Vec<u8>,
+    /// `instance_evals[proof][query]`.
+    pub evals: Vec<Vec<Vec<u8>>>,
+}
+
+thread_local! {
+    static INST_ON: std::cell::Cell<bool> = const { std::cell::Cell::new(false) };
+    static INST_LOG: RefCell<Vec<InstanceEvals>> = const { RefCell::new(Vec::new()) };
+}
+
+/// Switches the instance-evaluation log of this thread on or off (off by default) and empties it.
+pub fn set_instance_eval_log(on: bool) {
+    INST_ON.with(|c| c.set(on));
+    INST_LOG.with(|l| l.borrow_mut().clear());
+}
+
+/// Removes and returns the records logged on this thread since the last clear/take.
+pub fn take_instance_eval_log() -> Vec<InstanceEvals> {
+    INST_LOG.with(|l| std::mem::take(&mut *l.borrow_mut()))
+}
+
+/// Called by the verifier once `instance_evals` is complete. Nothing is read back: the log
+/// only observes.
+pub(crate) fn on_instance_evals<F: PrimeField>(x: &F, evals: &[Vec<F>]) {
+    if INST_ON.with(|c| c.get()) {
+        let evals = evals.iter().map(|p| p.iter().map(repr).collect()).collect();
+        INST_LOG.with(|l| l.borrow_mut().push(InstanceEvals { x: repr(x), evals }));
+    }
+}
